@@ -423,98 +423,6 @@ func c08Judge(v cty.Value, want cty.Type, r cty.Value) []string {
 	return fails
 }
 
-// c08Regular mirrors Convert.regular (the compatibility dynamicReplace assumes; where a
-// list / set / map target faces a tuple / object, the unified type of the elements must
-// be compatible with the target's element type too); the mirror itself is diffed
-// against the Lean definition (cv.regular).
-func c08Regular(in, out cty.Type) bool {
-	if in == cty.DynamicPseudoType {
-		return true
-	}
-	switch {
-	case out.IsMapType():
-		oe := out.ElementType()
-		switch {
-		case in.IsMapType():
-			return c08Regular(in.ElementType(), oe)
-		case in.IsObjectType():
-			atys := in.AttributeTypes()
-			var its []cty.Type
-			for _, k := range sortedKeys(atys) {
-				if !c08Regular(atys[k], oe) {
-					return false
-				}
-				its = append(its, atys[k])
-			}
-			return c08UnifiedRegular(its, oe)
-		}
-		return true
-	case out.IsListType() || out.IsSetType():
-		oe := out.ElementType()
-		switch {
-		case in.IsListType() || in.IsSetType():
-			return c08Regular(in.ElementType(), oe)
-		case in.IsTupleType():
-			for _, it := range in.TupleElementTypes() {
-				if !c08Regular(it, oe) {
-					return false
-				}
-			}
-			return c08UnifiedRegular(in.TupleElementTypes(), oe)
-		}
-		return true
-	case out.IsObjectType():
-		oa := out.AttributeTypes()
-		switch {
-		case in.IsMapType():
-			for k, ot := range oa {
-				_ = k
-				if !c08Regular(in.ElementType(), ot) {
-					return false
-				}
-			}
-			return true
-		case in.IsObjectType():
-			ia := in.AttributeTypes()
-			for k, ot := range oa {
-				if it, ok := ia[k]; ok && !c08Regular(it, ot) {
-					return false
-				}
-			}
-			return true
-		}
-		return false
-	case out.IsTupleType():
-		if !in.IsTupleType() {
-			return false
-		}
-		ie, oe := in.TupleElementTypes(), out.TupleElementTypes()
-		if len(oe) > len(ie) {
-			return false
-		}
-		for i := range oe {
-			if !c08Regular(ie[i], oe[i]) {
-				return false
-			}
-		}
-		return true
-	}
-	return true
-}
-
-// c08UnifiedRegular: dynamicReplace continues with the unified type of the elements
-// (unify(types, true)); it must be regular towards the target element type too.
-func c08UnifiedRegular(its []cty.Type, oe cty.Type) bool {
-	if len(its) == 0 {
-		return true
-	}
-	u := cty.NilType
-	if p, _ := try(func() { u, _ = convert.UnifyUnsafe(its) }); p {
-		return false
-	}
-	return u == cty.NilType || c08Regular(u, oe)
-}
-
 // c08Probes: the laws the theorems assume of the parameters, on the real code.
 func c08Probes(ctx *Ctx) {
 	r := ctx.R
@@ -537,22 +445,6 @@ func c08Probes(ctx *Ctx) {
 			})
 			ctx.Probe("unify-same", !p && got != cty.NilType && got.Equals(t), fmt.Sprintf("%d x %#v (unsafe=%v) -> %#v %s", n, t, uns, got, why))
 		}
-		// the mirror of Convert.regular against the Lean definition
-		base := genTy(r, 2, TyOpts{Dyn: r.Intn(5) == 0})
-		m := 1 + r.Intn(3)
-		its := make([]cty.Type, m)
-		for j := range its {
-			switch r.Intn(3) {
-			case 0:
-				its[j] = base
-			case 1:
-				its[j] = mutateTy(r, base, TyOpts{})
-			default:
-				its[j] = c08Derive(r, base, 2).WithoutOptionalAttributesDeep()
-			}
-		}
-		oe := c08Derive(r, its[r.Intn(m)], 2)
-		ctx.Add("cv.regular", encBool(c08Regular(its[0], oe)), encTy(its[0]), encTy(oe))
 		// SetLaws: Hash / Equals of unmarked members of one type neither panic nor fail
 		ety := genTy(r, 2, TyOpts{})
 		a := c08Val(r, ety, 2, c08VOpts{unknown: true, null: true})
